@@ -39,12 +39,12 @@ RatOpP  == ({"mean"} \X {0}) \cup ({"var", "std", "sem"} \X Ddofs)
 FoldCases(f) ==
   { Mk(f, "fold", o[1], t[1], t[2], sk, FALSE, o[2])
     : o \in { o \in FoldOpP : f.scol => o[1] \notin {"any", "all"} },       \* any / all take no numeric_only
-      t \in Targets(f, {0, 1}),
+      t \in Targets(f, {0, 1, 2}),
       sk \in BOOLEAN }
-FoldCasesOK(c) == c.op = "count" => c.sk                                      \* count has no skipna
+FoldCasesOK(c) == c.op = "count" => (c.sk /\ c.ax # 2)                        \* count has no skipna and no axis=None
 
 RatCases(f) ==
-  { Mk(f, "rat", o[1], t[1], t[2], sk, FALSE, o[2]) : o \in RatOpP, t \in Targets(f, {0, 1}), sk \in BOOLEAN }
+  { Mk(f, "rat", o[1], t[1], t[2], sk, FALSE, o[2]) : o \in RatOpP, t \in Targets(f, {0, 1, 2}), sk \in BOOLEAN }
 IdxCases(f) ==
   { Mk(f, "idx", o, t[1], t[2], sk, FALSE, 0) : o \in {"idxmin", "idxmax"}, t \in Targets(f, {0, 1}), sk \in BOOLEAN }
 NuniqCases(f) ==
@@ -222,6 +222,24 @@ DescribeAgrees ==
      /\ exp.v[1] = RInt(Len(Valid(FirstCol)))
      /\ exp.v[2] = RatFold("mean", FirstCol, TRUE, 0)
      /\ exp.v[3] = RatFold("var", FirstCol, TRUE, 1)
+
+\* axis = None: the grand fold.  sum / count / mean over all cells = combined over the COLUMNS' partial results weighted
+\* by their counts (not the mean of the column means), and likewise over every partitioning of the rows
+GrandFold ==
+  (Judged({"fold", "rat"}) /\ case.tgt = "frame" /\ case.ax = 2 /\ case.sk /\ case.p = 0 /\ case.op \in {"sum", "mean", "min", "max"}) =>
+     \A lay \in Lay :
+        LET cells(j, b) == PartsOf(Col(case.rows, case.cols[j]), lay)[b]
+            pairs == { <<j, b>> : j \in DOMAIN case.cols, b \in DOMAIN lay }
+            RECURSIVE Tot(_, _)
+            Tot(S, op) == IF S = {} THEN 0 ELSE LET x == CHOOSE x \in S : TRUE
+                                                IN IntFold(op, cells(x[1], x[2]), TRUE, 0) + Tot(S \ {x}, op)
+            live == { x \in pairs : Valid(cells(x[1], x[2])) # <<>> }
+            s == Tot(pairs, "sum")
+            n == Tot(pairs, "count")
+        IN CASE case.op = "sum"  -> Scalar = s
+             [] case.op = "mean" -> Scalar = IF n = 0 THEN RNaN ELSE RNorm(s, n)
+             [] case.op = "min"  -> Scalar = IF live = {} THEN NA ELSE Min({ IntFold("min", cells(x[1], x[2]), TRUE, 0) : x \in live })
+             [] case.op = "max"  -> Scalar = IF live = {} THEN NA ELSE Max({ IntFold("max", cells(x[1], x[2]), TRUE, 0) : x \in live })
 
 \* --- independent characterisations
 CountPlusNA == (Judged({"fold"}) /\ OneLane /\ case.op = "count") =>
